@@ -235,6 +235,20 @@ def release_check(c, R, hbin, seg, cycles, per_cycle, vsize):
 
 def main():
     c = Check("C08")
+    # a run against a mutated tree (VERIF_REPO != /repo: seeded changes, mutation self-tests) regenerates Gen.lean in the
+    # shared lean/ directory; other properties import it, so put the previous content back when this run ends
+    if os.path.realpath(REPO) != "/repo":
+        import atexit
+        saved = {}
+        for g in ['C07', 'C08']:
+            gp = os.path.join(LEAN, "Cppcms", g, "Gen.lean")
+            if os.path.exists(gp):
+                saved[gp] = open(gp).read()
+        def _restore():
+            for gp, txt in saved.items():
+                if open(gp).read() != txt:
+                    open(gp, "w").write(txt)
+        atexit.register(_restore)
     c.rule = ("case = one operation line of a cache history: exhaustive sequences over 3 keys / 2 deadlines / fetches / clock "
               "ticks with limits 1,2; random histories with limits 1..8 and more keys than the limit, deadlines around the "
               "clock; process-shared cache in 512 KiB..4 MiB segments with values up to beyond the segment (allocator "
